@@ -203,7 +203,14 @@ for _f in sorted(_glob.glob(_os.path.join(_os.path.dirname(_os.path.abspath(__fi
 
 def _c09_strata(c):
     """sampling strata of the C09 documents: which generator family, and whether an inline element sits among the texts"""
-    ks = [n["k"] for n in c.get("nodes", [])]
+    ns = c.get("nodes", [])
+    ks = [n["k"] for n in ns]
+    # layout tables with two or more cells that hold nothing but an inline element: few, all kept
+    for i, n in enumerate(ns):
+        if n["k"] == "LT":
+            cells = [m["k"] for m in ns[i + 1:] if m["d"] == n["d"] + 1]
+            if sum(1 for k in cells if k in ("INL", "A")) >= 2:
+                return "inline-cells"
     fam = "items" if ks and ks[0] == "UL" else ("tables" if any(k in ("LT", "DT") for k in ks) else "other")
     return fam + ("+inline" if any(k in ("INL", "A") for k in ks) else "")
 
